@@ -89,6 +89,12 @@ def gen_config(rnd, *, seg=None, ndim=None, allow_optional=True, per_axis=True, 
         cfg["shape"] = [8, 8, 8][: ndim - 1]
         if per_axis and rnd.random() < 0.3:
             cfg["pos_mode"] = "axes"
+    if rnd.random() < 0.25:
+        # ids, times and labels reach the library as numpy integers (what a label layer or a
+        # table hands over) instead of Python ints; edges / node pairs as lists instead of tuples
+        cfg["id_repr"] = rnd.choice(["np.int64", "np.int64", "np.uint64", "np.intp"])
+    if rnd.random() < 0.2:
+        cfg["seq_repr"] = "list"
     if allow_stray and seg and not cfg.get("static") and rnd.random() < 0.15:
         # the label image also holds detections that are no nodes of the solution ("unselected
         # detections", which the annotators skip): they must survive everything untouched
@@ -522,31 +528,48 @@ class World:
         out.emitted = list(self.emissions)
         return out
 
+    def rep(self, x):
+        """The caller's representation of an id / time / label: Python int (default), or the
+        numpy integer a label layer or a table hands over (cfg["id_repr"]); equal by value."""
+        kind = self.cfg.get("id_repr")
+        if kind is None or isinstance(x, bool) or not isinstance(x, (int, np.integer)):
+            return x
+        if kind == "np.uint64" and x < 0:
+            return np.int64(x)
+        return {"np.int64": np.int64, "np.uint64": np.uint64, "np.intp": np.intp}[kind](x)
+
     def _dispatch(self, op: dict, out: Outcome) -> None:
         import funtracks.user_actions as ua
 
         tr = self.tracks
         kind = op["op"]
+        rep = self.rep
+        seq = (lambda xs: [rep(x) for x in xs]) if self.cfg.get("seq_repr") == "list" else (lambda xs: tuple(rep(x) for x in xs))
         if kind == "add_node":
             attrs = dict(op["attrs"])
+            for k_ in (self.time_key, self.tkey):
+                if k_ in attrs:
+                    attrs[k_] = rep(attrs[k_])
             pixels = None
             if op.get("pixels") is not None:
                 pixels = tuple(np.asarray(a, dtype=np.int64) for a in op["pixels"])
-            out.action = ua.UserAddNode(tr, op["node"], attrs, pixels=pixels, force=op.get("force", False))
+            # (an id the label dtype cannot hold stays a Python int: numpy scalars wrap silently)
+            node = op["node"] if op.get("bad_pixels") == "label_beyond_dtype" else rep(op["node"])
+            out.action = ua.UserAddNode(tr, node, attrs, pixels=pixels, force=op.get("force", False))
         elif kind == "delete_node":
             if op.get("known_pixels") and tr.segmentation is not None and op["node"] in tr.graph:
                 # "the pixels of the node, if known": the caller looked them up itself
-                out.action = ua.UserDeleteNode(tr, op["node"], pixels=tr.get_pixels(op["node"]))
+                out.action = ua.UserDeleteNode(tr, rep(op["node"]), pixels=tr.get_pixels(op["node"]))
             else:
-                out.action = ua.UserDeleteNode(tr, op["node"])
+                out.action = ua.UserDeleteNode(tr, rep(op["node"]))
         elif kind == "add_edge":
-            out.action = ua.UserAddEdge(tr, tuple(op["edge"]), force=op.get("force", False))
+            out.action = ua.UserAddEdge(tr, seq(op["edge"]), force=op.get("force", False))
         elif kind == "delete_edge":
-            out.action = ua.UserDeleteEdge(tr, tuple(op["edge"]))
+            out.action = ua.UserDeleteEdge(tr, seq(op["edge"]))
         elif kind == "swap":
-            out.action = ua.UserSwapPredecessors(tr, tuple(op["nodes"]))
+            out.action = ua.UserSwapPredecessors(tr, seq(op["nodes"]))
         elif kind == "attrs":
-            out.action = ua.UserUpdateNodeAttrs(tr, op["node"], dict(op["attrs"]))
+            out.action = ua.UserUpdateNodeAttrs(tr, rep(op["node"]), dict(op["attrs"]))
         elif kind == "paint":
             self._paint(op, out)
         elif kind == "ctrl_add_nodes":
@@ -595,7 +618,7 @@ class World:
                 grp = (tuple(a for a in full), value) if value == 0 else None
                 out.info["painted"] = seg.copy()
                 out.info["overwritten"] = []
-                out.action = ua.UserUpdateSegmentation(tr, value, [grp] if grp else [], op["track_id"],
+                out.action = ua.UserUpdateSegmentation(tr, self.rep(value), [grp] if grp else [], self.rep(op["track_id"]),
                                                        force=op.get("force", False))
                 return
             out.info["noop"] = True
@@ -618,7 +641,8 @@ class World:
                 updated.append((tuple(a[sel] for a in full), v))
         out.info["painted"] = seg.copy()
         out.info["overwritten"] = [v for v in olds if v != 0]
-        out.action = ua.UserUpdateSegmentation(tr, value, updated, op["track_id"], force=op.get("force", False))
+        out.action = ua.UserUpdateSegmentation(tr, self.rep(value), [(px, self.rep(v)) for px, v in updated],
+                                               self.rep(op["track_id"]), force=op.get("force", False))
 
 
 # ----------------------------------------------------------------------------------------
